@@ -92,4 +92,95 @@ var Properties = map[string]PropDef{
 			{Name: "parser.ZZC12Expand", Quick: map[string]int{"N": 3}, Thorough: map[string]int{"N": 4}},
 		},
 	},
+	"C07": {
+		ID: "C07", AssertPrefix: "C07.", Bounds: ruleBounds, Assumptions: ruleAssumptions,
+		Outside:   "whole programs beyond one rule instance and its declaration context; forms nested deeper than one rule (covered inductively by probes); explicit polarities; more than 2 branches",
+		Harnesses: ruleHarnesses(),
+	},
+	"C05": {
+		ID: "C05", AssertPrefix: "C05.", Bounds: ruleBounds, Assumptions: ruleAssumptions,
+		Outside:   "the run-time use count of channels (C04/C01); contexts larger than 2 entries",
+		Harnesses: ruleHarnesses(),
+	},
+	"C09": {
+		ID: "C09", AssertPrefix: "C09.",
+		Bounds:      ruleBounds + "; every name of every form carries an explicit polarity annotation with a symbolic value in {+, -} (forms without annotations are the C07 run of the same harnesses, which asserts the same no-panic obligation); worker protocol: programs assembled from 5 defect switches (<=3 at once) and an injected internal panic; accepted definition sets as C10 (2 definitions of depth 1)",
+		Assumptions: append([]string{"goroutines are modelled run-to-completion (a spawned goroutine runs when the current one blocks, finishes, or the harness drains); unbuffered channels rendez-vous; no claim depends on other interleavings", "an internal failure is injected by a probe body that panics"}, ruleAssumptions...),
+		Outside:     "running time bounds other than the unwinding limits (call depth 150, 300 loop iterations); schedules other than run-to-completion; panics inside the parser (C11)",
+		Harnesses:   c09Harnesses(),
+	},
+	"C14": {
+		ID: "C14", AssertPrefix: "C14.",
+		Bounds:      "one binder layer (receive, case branch, split, shift, cut, plus wait/drop as non-binders) over an axiom with three name occurrences; identifiers symbolic over {a,b,c}, each occurrence / old / new uninitialised or one of two channels; 2 function definitions and 2 process declarations in both orders",
+		Assumptions: []string{"names are built exactly as the grammar actions and the runtime build them (identifier + optional channel)", "declaration bodies are probes"},
+		Outside:     "α-twin of the typing rules (verdict under injective renaming of identifiers, labels and type names), nested binders deeper than one layer, printed outcome of whole runs, call-site substitution of CallForm.Transition (C04)",
+		Harnesses: []HarnessDef{
+			{Name: "process.ZZC14Subst"},
+			{Name: "process.ZZC14FreeNames"},
+			{Name: "process.ZZC14Copy"},
+			{Name: "process.ZZC14DeclOrder", Quick: map[string]int{"K": 1, "D": 1, "G": 0, "NP": 1, "PD": 0}},
+		},
+	},
+	"C06": {
+		ID: "C06", AssertPrefix: "C06.", Bounds: ruleBounds, Assumptions: ruleAssumptions,
+		Outside:   "shift legality inside type definitions is decided under C10; judgements nested deeper than one rule follow inductively from the probes",
+		Harnesses: []HarnessDef{ruleHarnesses()[9], ruleHarnesses()[10], ruleHarnesses()[13], ruleHarnesses()[14], ruleHarnesses()[15]},
+	},
+}
+
+func ruleHarnesses() []HarnessDef {
+	q := func(extra map[string]int) map[string]int {
+		m := map[string]int{"K": 1, "D": 1, "GD": 0, "G": 2}
+		for k, v := range extra {
+			m[k] = v
+		}
+		return m
+	}
+	t := map[string]int{"K": 2}
+	return []HarnessDef{
+		{Name: "process.ZZRuleSend", Quick: q(nil), Thorough: t},
+		{Name: "process.ZZRuleReceive", Quick: q(nil), Thorough: t},
+		{Name: "process.ZZRuleSelect", Quick: q(nil), Thorough: t},
+		{Name: "process.ZZRuleCase", Quick: q(nil), Thorough: t},
+		{Name: "process.ZZRuleClose", Quick: q(nil), Thorough: t},
+		{Name: "process.ZZRuleWait", Quick: q(nil), Thorough: t},
+		{Name: "process.ZZRuleForward", Quick: q(nil), Thorough: t},
+		{Name: "process.ZZRuleDrop", Quick: q(nil), Thorough: t},
+		{Name: "process.ZZRuleSplit", Quick: q(nil), Thorough: t},
+		{Name: "process.ZZRuleCast", Quick: q(nil), Thorough: t},
+		{Name: "process.ZZRuleShift", Quick: q(nil), Thorough: t},
+		{Name: "process.ZZRulePrint", Quick: q(nil), Thorough: t},
+		{Name: "process.ZZRuleCall", Quick: q(map[string]int{"PD": 0, "NA": 1, "NP": 1}), Thorough: map[string]int{"NA": 2, "NP": 2}},
+		{Name: "process.ZZRuleCut", Quick: q(map[string]int{"PD": 0, "G": 1, "NP": 1, "AD": 0}), Thorough: map[string]int{"G": 2, "AD": 1}},
+		{Name: "process.ZZDeclFunction", Quick: q(map[string]int{"NP": 2, "G": 0}), Thorough: t},
+		{Name: "process.ZZDeclProcess", Quick: q(map[string]int{"G": 0}), Thorough: t},
+	}
+}
+
+var ruleBounds = "per rule: type environment of K names with depth-1 bodies (quick K=1, thorough K=2), Γ of 0..2 entries (symbolic identifiers over {a,b,c,d}, types = unit or a name), provider type of depth<=1, provider = self or a symbolic shadow name, every name of the form symbolic (identifier and self-ness), labels over {l,m,n}, case with 1..2 branches, calls with <=2 (thorough 3) arguments against <=1 (2) parameters, cut bodies in {fwd self u, close self, f(u..)}; continuations are probes with a nondeterministic verdict"
+
+var ruleAssumptions = []string{
+	"type environments are well-formed by construction (C10 decides that only such environments are admitted); types are mode-complete",
+	"binders written `self`, binders named like the current provider in rules that do not check it (split, ⊕L, cut), re-use of a live identifier by a cut, and explicit polarity annotations are assumed away (unobservable at program level or undocumented; DESIGN.md §6)",
+	"continuations are probes: harness forms that record the judgement (copy of Γ, shadow provider, provider type) and answer with a nondeterministic verdict, so one rule instance stands for every program containing it",
+	"reference premises: DESIGN.md Appendix A, with type agreement decided by the reference bisimilarity of C08",
+	"fmt/log output is stubbed; errors are opaque non-nil values",
+}
+
+func c09Harnesses() []HarnessDef {
+	var hs []HarnessDef
+	for _, h := range ruleHarnesses() {
+		q := map[string]int{}
+		for k, v := range h.Quick {
+			q[k] = v
+		}
+		q["POL"] = 2
+		h.Quick = q
+		h.Thorough = map[string]int{"K": 2}
+		hs = append(hs, h)
+	}
+	hs = append(hs, HarnessDef{Name: "process.ZZC09Worker"})
+	hs = append(hs, HarnessDef{Name: "types.ZZC09Accepted", Quick: map[string]int{"K": 2, "D": 1}, Depth: 200})
+	hs = append(hs, HarnessDef{Name: "types.ZZC09Accepted", Quick: map[string]int{"K": 1, "D": 2}, Depth: 200})
+	return hs
 }
